@@ -100,6 +100,8 @@ def same_states_case(case, rng, viol, counts, classes):
                 continue
         out.append(r)
     desc.update({"states": nstates, "part": part, "residues": len(chosen)})
+    if not any(r.raw is None and r.alt != " " for r in out):
+        return desc, "the chosen residues have no atom of the chosen part (e.g. GLY side chain)"
     multi = obs.run_single(pdbio.dump(out), opts)
     ref = obs.run_single(pdbio.dump(base), opts)
     counts["pipeline_runs"] = counts.get("pipeline_runs", 0) + 2
